@@ -51,6 +51,7 @@ let result_str = function
   | RErrFormat -> "efmt"
   | RErrBadCred -> "badcred"
   | RErrPutDisabled -> "putdisabled"
+  | RErrIO -> "ioerror"
   | RCred c -> Printf.sprintf "c:%s:%s:%s:%s" (hex_of_str c.c_user) (hex_of_str c.c_pass)
                  (hex_of_str c.c_refresh) (hex_of_str c.c_access)
 
@@ -151,6 +152,33 @@ let crash id =
   let showd = String.concat "," (List.map (fun d -> match dget d fs1 with None -> "-" | Some m -> Printf.sprintf "%o" (int_of_n m)) chain) in
   Printf.printf "%s STEPS %d DIR %s CFG %s TMP %s\n" id (List.length steps) showd (show p_cfg) (show p_tmp)
 
+(* a save in which one system call fails: the model's error path with its clean-up *)
+let io_error id =
+  let (chain, dirs) = parse_chain (next ()) in
+  let old = next () in
+  let oldmode = next_int () in
+  let phase = next () in
+  let j = nat_of_int (next_int ()) in
+  let n = next_int () in
+  let chunks = times n next_str in
+  let files = if old = "ABSENT" then [] else [ (p_cfg, { f_data = str_of_hex old; f_mode = n_of_int oldmode }) ] in
+  let fs0 = { fs_files = files; fs_dirs = dirs } in
+  let steps = match phase with
+    | "OK" -> save_steps chain p_cfg p_tmp chunks
+    | "MKDIR" -> failed_save_steps chain p_cfg p_tmp chunks (FMkdir j)
+    | "CREATE" -> failed_save_steps chain p_cfg p_tmp chunks FCreate
+    | "CHMOD" -> failed_save_steps chain p_cfg p_tmp chunks FChmod
+    | "WRITE" -> failed_save_steps chain p_cfg p_tmp chunks (FWrite j)
+    | "CLOSE" -> failed_save_steps chain p_cfg p_tmp chunks FClose
+    | "RENAME" -> failed_save_steps chain p_cfg p_tmp chunks FRename
+    | p -> raise (Bad ("phase " ^ p)) in
+  let fs1 = exec_all fs0 steps in
+  let show p = match fget p fs1 with
+    | None -> "ABSENT"
+    | Some f -> Printf.sprintf "%s/%o" (hex_of_str f.f_data) (int_of_n f.f_mode) in
+  let showd = String.concat "," (List.map (fun d -> match dget d fs1 with None -> "-" | Some m -> Printf.sprintf "%o" (int_of_n m)) chain) in
+  Printf.printf "%s DIR %s CFG %s TMP %s\n" id showd (show p_cfg) (show p_tmp)
+
 let script id =
   let (chain, dirs) = parse_chain (next ()) in
   let n = next_int () in
@@ -212,6 +240,7 @@ let () =
            | "H" -> history id
            | "K" -> crash id
            | "KS" -> script id
+           | "KE" -> io_error id
            | "S" -> concurrent id
            | "B64" -> let s = next_str () in
              Printf.printf "%s %s %s\n" id (hex_of_str (b64_encode s))
